@@ -17,6 +17,7 @@ import GoZero.Extracted.C06
 import GoZero.C06.Spec
 import GoZero.C06.Calls
 import GoZero.C06.Ctx
+import GoZero.C06.Decode
 namespace GoZero.C06.Tie
 open GoZero.C06
 open GoZero.Extracted.C06
@@ -923,6 +924,14 @@ theorem tie_optionsReachTheNodes (c : Multi.Ctor) (o : Options) : Multi.optsAtNo
 whose body hands `context.Background()` to `DelCtx`), not with the ctx of the DelCtx call that armed it —
 `Ctx.RetryCtx.background`, for which `retry_independent_of_writer_context` is proven. -/
 theorem tie_retryDelCtx : Ctx.retrySourceOf retryDelCtx = some .background := by decide
+
+/-- round 5e: the follower's decode at the end of doTake and the cache hit's decode in processCache call THE SAME
+decoder, jsonx.Unmarshal, which is a json.Decoder with UseNumber (`Decode.Decoder.useNumber`, for which
+`all_paths_yield_the_same_number` is proven); `json.Unmarshal` is a different callee and classifies as `plain`. -/
+theorem tie_decoders : Decode.decoderOfSource doTakeDecoders = some .useNumber
+    ∧ Decode.decoderOfSource processCacheDecoders = some .useNumber
+    ∧ jsonxUnmarshalFacts = ["call unmarshalUseNumber(decoder, v)", "return formatError(string(data), err)", "return nil"]
+    ∧ jsonxUseNumberFacts = ["call decoder.UseNumber()", "return decoder.Decode(v)", "call decoder.Decode(v)"] := by decide
 
 /-- the `Must…` constructors of monc hand their options on as well. -/
 theorem tie_mustNewForward : Multi.hopForwards optsForwarding "monc.MustNewModel" = true
